@@ -9,6 +9,14 @@ ALL = ["C%02d" % i for i in range(1, 21)]
 
 # id -> dict(level, technique, text, note, design_ref, engine)
 CHECKS = {
+    "C06": dict(
+        level="exploration",
+        engine="E1-enum",
+        technique="bounded-exhaustive enumeration of inheritance chains x per-level block assignments x extends forms against an independent block resolver; enumerated include/import/error cases under a wall cap",
+        text="Every chain of 1..3 (thorough 4) templates in which each non-root template gives each block of {a, b nested in a, c} one of {absent, override, super() before, override around super(), super() twice} (125 assignments per level; 3.1e4 chains of length 3 quick, 3.9e6 of length 4 thorough), with and without block c in the root, with the most derived template extending by static name, by a name from the context, inside a taken if and inside a not-taken if, is rendered and compared with a 60-line resolver (most derived definition wins, super() moves a per-block cursor to the next definition, nested block tags render the most derived definition, text outside blocks of extending templates is discarded, super() without a parent fails). 50 hand-written cases cover include placements (top level, loop, macro, block, with, child block), name forms (string, list with missing entries, missing with/without ignore missing, dynamic, non-string), what an import exposes, and the error family (extends/include cycles of length 1..3, double extends, missing parent, super() without parent or outside a block, required blocks, self.block()), each under a 10 s wall cap so a hang counts as a failure.",
+        note="The resolver is the trusted base for chains; the fixed cases carry hand-written expectations taken from the documentation. One expectation was corrected during calibration (include of an empty list renders nothing; the property does not demand an error there).",
+        design_ref="2/C06",
+    ),
     "C03": dict(
         level="exploration",
         engine="E1-enum",
